@@ -52,6 +52,7 @@ IdxDefined(q) ==
     ELSE CASE q.op \in {"merge", "unique"} -> FALSE
            [] q.op = "resetindex" -> FALSE
            [] q.op \in {"groupby", "reduce", "len", "setindex", "valuecounts"} -> TRUE
+           [] q.op = "dropdup" -> IdxDefined(q.c[1]) /\ OrdDefined(q.c[1])   \* which duplicate survives (and so its label) follows the row order
            [] OTHER -> IdxDefined(q.c[1])          \* concat / combine_first keep the labels of their inputs
 
 (***************************************************************************)
